@@ -24,13 +24,15 @@ import (
 	"github.com/bufbuild/verifharness/internal/nd"
 )
 
-// Section F: the migrator's translation of a v1beta1/v1 module's roots and excludes into v2
-// modules (path = moduleDir/root, excludes kept), on an in-memory bucket, no compilation:
-//   correspondence: the v2 modules (path, workspace-relative excludes) the real migrator wrote and
-//     the owner modules of every file according to the real workspace targeting of the migrated
-//     tree == BufModel.Config.migrateRoot / inV2Module;
-//   oracle: the set of proto files the real workspace targeting attributes to the module before
-//     migration == the union over the migrated modules after.
+// Section F: workspace-level file ownership before and after `buf config migrate`, on an in-memory
+// bucket, no compilation.  A generated v1/v1beta1 workspace (buf.work.yaml with several module
+// directories, or a list of module directories; v1beta1 modules with several roots, v1 modules,
+// directories without buf.yaml; excludes per root) is migrated by the real migrator.
+//   correspondence: for every file the (module directory, root, root-relative path) triples under
+//     which the REAL workspace targeting knows it BEFORE migration, the v2 modules the real migrator
+//     wrote (path, workspace-relative excludes) and the triples AFTER migration == the Lean model
+//     evaluating BufModel.Config.owners on the v1 workspace and on readV2 (writeV2 (migrateFile ws));
+//   oracle (implementation only): after == before renamed (dir, root, p) -> (dir/root, ".", p).
 
 var quietLogger = slog.New(slog.NewTextHandler(io.Discard, nil))
 
@@ -49,7 +51,19 @@ type migRoot struct {
 	Excludes []string // relative to the root
 }
 
-func workspaceFiles(bucket storage.ReadBucket, subDir string) (map[string][]string, error) {
+type fileOwner struct {
+	BucketID string // module identity as the workspace code names it
+	Path     string // the path under which the module knows the file
+}
+
+// workspaceOwners: path (relative to the bucket root) -> owners, for the workspace the real code
+// finds for subDir of the bucket mapped on `prefix` (the CLI's fetch layer hands the workspace code
+// a bucket rooted at the controlling workspace; bucket ids and module paths are relative to that).
+func workspaceOwners(root storage.ReadBucket, prefix string, subDir string) (map[string][]fileOwner, error) {
+	bucket := root
+	if prefix != "." {
+		bucket = storage.MapReadBucket(root, storage.MapOnPrefix(prefix))
+	}
 	bucketTargeting, err := buftarget.NewBucketTargeting(ctx, quietLogger, bucket, subDir, nil, nil, buftarget.TerminateAtControllingWorkspace)
 	if err != nil {
 		return nil, err
@@ -59,7 +73,7 @@ func workspaceFiles(bucket storage.ReadBucket, subDir string) (map[string][]stri
 	if err != nil {
 		return nil, err
 	}
-	owners := map[string][]string{}
+	owners := map[string][]fileOwner{}
 	for _, module := range workspace.Modules() {
 		if !module.IsLocal() {
 			continue
@@ -67,7 +81,8 @@ func workspaceFiles(bucket storage.ReadBucket, subDir string) (map[string][]stri
 		id := module.BucketID()
 		if err := module.WalkFileInfos(ctx, func(fi bufmodule.FileInfo) error {
 			if fi.FileType() == bufmodule.FileTypeProto {
-				owners[fi.ExternalPath()] = append(owners[fi.ExternalPath()], id)
+				// the in-memory bucket's external paths are its root-relative paths
+				owners[fi.ExternalPath()] = append(owners[fi.ExternalPath()], fileOwner{normalpath.Join(prefix, id), fi.Path()})
 			}
 			return nil
 		}); err != nil {
@@ -77,31 +92,120 @@ func workspaceFiles(bucket storage.ReadBucket, subDir string) (map[string][]stri
 	return owners, nil
 }
 
-func runMigRoots(run *hx.Run, r *hx.Rand, n int) {
+type wsModule struct {
+	Dir   string // relative to the destination directory
+	Kind  string // v1beta1 | v1 | none (no buf.yaml)
+	Roots []migRoot
+}
+
+// tripleOf names an owner by (module dir relative to dest, root, path): the root is what lies
+// between the module directory and the module-relative path in the external path.
+func tripleOf(dest, ext string, o fileOwner, idIsBucketRelative bool) (nd.Node, string) {
+	relExt, err := normalpath.Rel(dest, ext)
+	if err != nil {
+		return nd.L(nd.A("?"), nd.A("?"), nd.A("?")), "?"
+	}
+	dir := o.BucketID
+	if idIsBucketRelative {
+		if d, err := normalpath.Rel(dest, o.BucketID); err == nil {
+			dir = d
+		}
+	}
+	below, err := normalpath.Rel(dir, relExt) // root/path
+	if err != nil {
+		return nd.L(nd.A(dir), nd.A("?"), nd.A(o.Path)), dir + "\x00?"
+	}
+	root := "?"
+	switch {
+	case below == o.Path:
+		root = "."
+	case strings.HasSuffix(below, "/"+o.Path):
+		root = strings.TrimSuffix(below, "/"+o.Path)
+	}
+	return nd.L(nd.A(dir), nd.A(root), nd.A(o.Path)), dir + "\x00" + root
+}
+
+func sortedTriples(dest, ext string, os []fileOwner, idIsBucketRelative bool) nd.Node {
+	type kt struct {
+		k string
+		n nd.Node
+	}
+	var xs []kt
+	for _, o := range os {
+		n, k := tripleOf(dest, ext, o, idIsBucketRelative)
+		xs = append(xs, kt{k, n})
+	}
+	sort.SliceStable(xs, func(a, b int) bool { return xs[a].k < xs[b].k })
+	out := []nd.Node{}
+	for _, x := range xs {
+		out = append(out, x.n)
+	}
+	return nd.L(out...)
+}
+
+func runMigWs(run *hx.Run, r *hx.Rand, n int) {
 	for i := 0; i < n; i++ {
+		if run.Only >= 0 && run.Only != i {
+			continue
+		}
 		rr := r.Fork(uint64(i))
-		moduleDir := hx.Pick(rr, []string{".", "proto", "a/b", "x y"})
-		v1beta1 := rr.Chance(2, 3)
-		var roots []migRoot
-		if v1beta1 && rr.Chance(3, 4) {
-			pool := []string{"src", "protos/a", "protos/b", "lib"}
-			hx.Shuffle(rr, pool)
-			for _, root := range pool[:1+rr.Intn(2)] {
-				roots = append(roots, migRoot{Root: root})
-			}
+		// workspace mode: buf.work.yaml at dest lists the module directories; module mode: the
+		// module directories are handed to the migrator one by one (destination ".").
+		workspaceMode := rr.Chance(2, 3)
+		dest := "."
+		if workspaceMode && rr.Chance(1, 2) {
+			dest = "ws"
+		}
+		dirPool := []string{"proto", "a/b", "x y", "api", "vendor/x"}
+		hx.Shuffle(rr, dirPool)
+		nm := 1 + rr.Intn(3)
+		var mods []wsModule
+		if !workspaceMode && rr.Chance(1, 4) {
+			mods = []wsModule{{Dir: "."}}
 		} else {
-			roots = []migRoot{{Root: "."}}
+			for _, d := range dirPool[:nm] {
+				mods = append(mods, wsModule{Dir: d})
+			}
 		}
 		exPool := []string{"gen", "vendor", "internal/x", "gen2"}
-		for j := range roots {
-			if rr.Chance(1, 2) {
-				hx.Shuffle(rr, exPool)
-				roots[j].Excludes = append([]string{}, exPool[:1+rr.Intn(2)]...)
-				sort.Strings(roots[j].Excludes)
+		for k := range mods {
+			m := &mods[k]
+			switch x := rr.Intn(10); {
+			case x < 6:
+				m.Kind = "v1beta1"
+			case x < 9:
+				m.Kind = "v1"
+			default:
+				m.Kind = "none"
+			}
+			if m.Kind == "v1beta1" && rr.Chance(3, 4) {
+				pool := []string{"src", "protos/a", "protos/b", "lib"}
+				hx.Shuffle(rr, pool)
+				for _, root := range pool[:1+rr.Intn(2)] {
+					m.Roots = append(m.Roots, migRoot{Root: root})
+				}
+			} else {
+				m.Roots = []migRoot{{Root: "."}}
+			}
+			if m.Kind != "none" {
+				for j := range m.Roots {
+					if rr.Chance(1, 2) {
+						hx.Shuffle(rr, exPool)
+						m.Roots[j].Excludes = append([]string{}, exPool[:1+rr.Intn(2)]...)
+						sort.Strings(m.Roots[j].Excludes)
+					}
+				}
+			}
+			sort.Slice(m.Roots, func(a, b int) bool { return m.Roots[a].Root < m.Roots[b].Root })
+		}
+		sort.Slice(mods, func(a, b int) bool { return mods[a].Dir < mods[b].Dir })
+
+		bucket := storagemem.NewReadWriteBucket()
+		put := func(path, content string) {
+			if err := storage.PutPath(ctx, bucket, path, []byte(content)); err != nil {
+				panic(err)
 			}
 		}
-		sort.Slice(roots, func(a, b int) bool { return roots[a].Root < roots[b].Root })
-		// files: below roots, below excludes, outside roots
 		var files []string
 		seen := map[string]bool{}
 		add := func(p string) {
@@ -110,132 +214,202 @@ func runMigRoots(run *hx.Run, r *hx.Rand, n int) {
 				files = append(files, p)
 			}
 		}
-		for j, root := range roots {
-			base := normalpath.Join(moduleDir, root.Root)
-			add(normalpath.Join(base, fmt.Sprintf("r%d.proto", j)))
-			add(normalpath.Join(base, "pkg", fmt.Sprintf("r%d_p.proto", j)))
-			for k, ex := range exPool {
-				if rr.Chance(2, 3) {
-					add(normalpath.Join(base, ex, fmt.Sprintf("r%d_e%d.proto", j, k)))
+		var describe strings.Builder
+		for k, m := range mods {
+			abs := normalpath.Join(dest, m.Dir)
+			for j, root := range m.Roots {
+				base := normalpath.Join(abs, root.Root)
+				add(normalpath.Join(base, fmt.Sprintf("m%dr%d.proto", k, j)))
+				add(normalpath.Join(base, "pkg", fmt.Sprintf("m%dr%d_p.proto", k, j)))
+				for e, ex := range exPool {
+					if rr.Chance(2, 3) {
+						add(normalpath.Join(base, ex, fmt.Sprintf("m%dr%d_e%d.proto", k, j, e)))
+					}
+				}
+				add(normalpath.Join(base, "genx", fmt.Sprintf("m%dr%d_gx.proto", k, j))) // sibling with a common name prefix
+				add(normalpath.Join(base, "gen", "notproto.txt"))
+			}
+			add(normalpath.Join(abs, "outside", fmt.Sprintf("m%d_o.proto", k)))
+			if m.Kind == "none" {
+				fmt.Fprintf(&describe, "%s: (no buf.yaml)\n", abs)
+				continue
+			}
+			var yml strings.Builder
+			yml.WriteString("version: " + m.Kind + "\n")
+			var fullEx []string
+			for _, root := range m.Roots {
+				for _, ex := range root.Excludes {
+					fullEx = append(fullEx, normalpath.Join(root.Root, ex))
 				}
 			}
-			add(normalpath.Join(base, "genx", fmt.Sprintf("r%d_gx.proto", j))) // sibling with a common name prefix
+			multi := len(m.Roots) > 1 || m.Roots[0].Root != "."
+			if multi || len(fullEx) > 0 {
+				yml.WriteString("build:\n")
+				if multi {
+					yml.WriteString("  roots:\n")
+					for _, root := range m.Roots {
+						yml.WriteString("    - " + root.Root + "\n")
+					}
+				}
+				if len(fullEx) > 0 {
+					yml.WriteString("  excludes:\n")
+					for _, ex := range fullEx {
+						yml.WriteString("    - " + ex + "\n")
+					}
+				}
+			}
+			put(normalpath.Join(abs, "buf.yaml"), yml.String())
+			fmt.Fprintf(&describe, "%s/buf.yaml:\n%s", abs, yml.String())
 		}
-		add(normalpath.Join(moduleDir, "outside", "o.proto"))
+		add(normalpath.Join(dest, "nomodule", "n.proto"))
 		sort.Strings(files)
-
-		var yml strings.Builder
-		if v1beta1 {
-			yml.WriteString("version: v1beta1\n")
-		} else {
-			yml.WriteString("version: v1\n")
-		}
-		var fullEx []string
-		for _, root := range roots {
-			for _, ex := range root.Excludes {
-				fullEx = append(fullEx, normalpath.Join(root.Root, ex))
-			}
-		}
-		if (len(roots) > 0 && (len(roots) > 1 || roots[0].Root != ".")) || len(fullEx) > 0 {
-			yml.WriteString("build:\n")
-			if len(roots) > 1 || roots[0].Root != "." {
-				yml.WriteString("  roots:\n")
-				for _, root := range roots {
-					yml.WriteString("    - " + root.Root + "\n")
-				}
-			}
-			if len(fullEx) > 0 {
-				yml.WriteString("  excludes:\n")
-				for _, ex := range fullEx {
-					yml.WriteString("    - " + ex + "\n")
-				}
-			}
-		}
-		bucket := storagemem.NewReadWriteBucket()
-		put := func(path, content string) {
-			if err := storage.PutPath(ctx, bucket, path, []byte(content)); err != nil {
-				panic(err)
-			}
-		}
-		put(normalpath.Join(moduleDir, "buf.yaml"), yml.String())
 		for k, f := range files {
 			put(f, fmt.Sprintf("syntax = \"proto3\";\npackage p%d;\n", k))
 		}
-		rootNodes := []nd.Node{}
-		for _, root := range roots {
-			rootNodes = append(rootNodes, nd.L(nd.A(root.Root), nd.Strs(root.Excludes)))
+		if workspaceMode {
+			var w strings.Builder
+			w.WriteString("version: v1\ndirectories:\n")
+			for _, m := range mods {
+				w.WriteString("  - " + m.Dir + "\n")
+			}
+			put(normalpath.Join(dest, "buf.work.yaml"), w.String())
+			fmt.Fprintf(&describe, "%s/buf.work.yaml:\n%s", dest, w.String())
 		}
-		line := "migroot\t" + hx.Enc(moduleDir) + "\t" + nd.L(rootNodes...).String() + "\t" + nd.Strs(files).String()
-		replay := fmt.Sprintf("%s --seed %d --tier %s --out <dir>   # section migroot case %d: module dir %q, buf.yaml:\n%s files: %v",
-			os.Args[0], run.Seed, run.Tier, i, moduleDir, yml.String(), files)
-		run.Count(map[bool]string{true: "migroot:v1beta1", false: "migroot:v1"}[v1beta1])
-		if len(roots) > 1 {
-			run.Count("migroot:roots>1")
+		// protocol line: module dirs and files relative to dest
+		modNodes := []nd.Node{}
+		for _, m := range mods {
+			rootNodes := []nd.Node{}
+			for _, root := range m.Roots {
+				rootNodes = append(rootNodes, nd.L(nd.A(root.Root), nd.Strs(root.Excludes)))
+			}
+			modNodes = append(modNodes, nd.L(nd.A(m.Dir), nd.L(rootNodes...)))
 		}
-		if len(fullEx) > 0 {
-			run.Count("migroot:excludes")
+		var relFiles []string
+		for _, f := range files {
+			rf, err := normalpath.Rel(dest, f)
+			if err != nil {
+				panic(err)
+			}
+			relFiles = append(relFiles, rf)
+		}
+		line := "migws\t" + nd.L(modNodes...).String() + "\t" + nd.Strs(relFiles).String()
+		replay := fmt.Sprintf("%s --seed %d --tier %s --out <dir> --only %d   # section migws case %d (workspace mode %v, destination %q):\n%s files: %v",
+			os.Args[0], run.Seed, run.Tier, i, i, workspaceMode, dest, describe.String(), files)
+		run.Count(map[bool]string{true: "migws:workspace-mode", false: "migws:module-mode"}[workspaceMode])
+		run.Count(fmt.Sprintf("migws:modules=%d", len(mods)))
+		for _, m := range mods {
+			run.Count("migws:kind:" + m.Kind)
+			if len(m.Roots) > 1 {
+				run.Count("migws:roots>1")
+			}
+			for _, root := range m.Roots {
+				if len(root.Excludes) > 0 {
+					run.Count("migws:excludes")
+					break
+				}
+			}
 		}
 
 		func() {
 			defer func() {
 				if p := recover(); p != nil {
-					failC(run, hx.OracleFailure{Class: "migroot-panic", What: fmt.Sprint(p), Input: yml.String(), Replay: replay})
+					failC(run, hx.OracleFailure{Class: "migws-panic", What: fmt.Sprint(p), Input: describe.String(), Replay: replay})
 					run.Case(line, "panic", true)
 				}
 			}()
-			before, err := workspaceFiles(bucket, moduleDir)
-			if err != nil {
-				run.Count("migroot:before-error")
-				run.Case(line, "before-error", false)
-				return
+			// BEFORE: the real v1 workspace(s)
+			before := map[string][]fileOwner{}
+			if workspaceMode {
+				b, err := workspaceOwners(bucket, dest, ".")
+				if err != nil {
+					run.Count("migws:before-error"); if os.Getenv("C16_DEBUG") != "" { fmt.Fprintln(os.Stderr, "before-error:", err, "\n", describe.String()) }
+					run.Case(line, "before-error", false)
+					return
+				}
+				before = b
+			} else {
+				for _, m := range mods {
+					b, err := workspaceOwners(bucket, ".", m.Dir)
+					if err != nil {
+						run.Count("migws:before-error"); if os.Getenv("C16_DEBUG") != "" { fmt.Fprintln(os.Stderr, "before-error:", err, "\n", describe.String()) }
+						run.Case(line, "before-error", false)
+						return
+					}
+					for p, os := range b {
+						before[p] = append(before[p], os...)
+					}
+				}
 			}
 			migrator := bufmigrate.NewMigrator(quietLogger, noModuleKeys{}, bufmodule.NopCommitProvider)
-			if err := migrator.Migrate(ctx, bucket, nil, []string{moduleDir}, nil); err != nil {
-				failC(run, hx.OracleFailure{Class: "migroot-migrate-error", What: err.Error(), Input: yml.String(), Replay: replay})
+			var wsDirs, modDirs []string
+			if workspaceMode {
+				wsDirs = []string{dest}
+			} else {
+				for _, m := range mods {
+					modDirs = append(modDirs, m.Dir)
+				}
+			}
+			if err := migrator.Migrate(ctx, bucket, wsDirs, modDirs, nil); err != nil {
+				failC(run, hx.OracleFailure{Class: "migws-migrate-error", What: err.Error(), Input: describe.String(), Replay: replay})
 				run.Case(line, "migrate-error", true)
 				return
 			}
-			f, err := bufconfig.GetBufYAMLFileForPrefix(ctx, bucket, ".")
+			f, err := bufconfig.GetBufYAMLFileForPrefix(ctx, bucket, dest)
 			if err != nil {
-				failC(run, hx.OracleFailure{Class: "migroot-after-read-error", What: err.Error(), Input: yml.String(), Replay: replay})
+				failC(run, hx.OracleFailure{Class: "migws-after-read-error", What: err.Error(), Input: describe.String(), Replay: replay})
 				run.Case(line, "after-read-error", true)
 				return
 			}
-			mods := []nd.Node{}
+			v2mods := []nd.Node{}
 			for _, m := range f.ModuleConfigs() {
 				var ex []string
 				for _, x := range m.RootToExcludes()["."] {
 					ex = append(ex, normalpath.Join(m.DirPath(), x))
 				}
-				mods = append(mods, nd.L(nd.A(m.DirPath()), nd.Strs(ex)))
+				v2mods = append(v2mods, nd.L(nd.A(m.DirPath()), nd.Strs(ex)))
 			}
-			after, err := workspaceFiles(bucket, ".")
+			after, err := workspaceOwners(bucket, dest, ".")
 			if err != nil {
-				failC(run, hx.OracleFailure{Class: "migroot-after-workspace-error", What: err.Error(), Input: yml.String(), Replay: replay})
+				failC(run, hx.OracleFailure{Class: "migws-after-workspace-error", What: err.Error(), Input: describe.String(), Replay: replay})
 				run.Case(line, "after-workspace-error", true)
 				return
 			}
-			owners := []nd.Node{}
+			bs, as := []nd.Node{}, []nd.Node{}
+			agree := true
+			var diffs []string
 			for _, file := range files {
-				o := append([]string{}, after[file]...)
-				sort.Strings(o)
-				owners = append(owners, nd.Strs(o))
-			}
-			// oracle: same proto files before and after
-			var bs, as []string
-			for p := range before {
-				bs = append(bs, p)
+				b := sortedTriples(dest, file, before[file], true)
+				a := sortedTriples(dest, file, after[file], true)
+				bs, as = append(bs, b), append(as, a)
+				// oracle: after == before renamed (dir, root, p) -> (dir/root, ".", p)
+				var want []string
+				for _, t := range b.List {
+					want = append(want, normalpath.Join(t.List[0].Atom, t.List[1].Atom)+"\x00.\x00"+t.List[2].Atom)
+				}
+				var got []string
+				for _, t := range a.List {
+					got = append(got, t.List[0].Atom+"\x00"+t.List[1].Atom+"\x00"+t.List[2].Atom)
+				}
+				sort.Strings(want)
+				sort.Strings(got)
+				if strings.Join(want, "\n") != strings.Join(got, "\n") {
+					agree = false
+					diffs = append(diffs, fmt.Sprintf("%s: before %s, after %s", file, show(b), show(a)))
+				}
 			}
 			for p := range after {
-				as = append(as, p)
+				if !seen[p] {
+					agree = false
+					diffs = append(diffs, "file appeared: "+p)
+				}
 			}
-			sort.Strings(bs)
-			sort.Strings(as)
-			if strings.Join(bs, "\n") != strings.Join(as, "\n") {
-				failC(run, hx.OracleFailure{Class: "migroot-files-changed", What: fmt.Sprintf("files of the module before migration %v, after %v", bs, as),
-					Input: map[string]any{"moduleDir": moduleDir, "buf.yaml": yml.String(), "files": files}, Replay: replay})
+			agreeS := "agree"
+			if !agree {
+				agreeS = "DISAGREE"
+				failC(run, hx.OracleFailure{Class: "migws-owners-changed", What: "file ownership (module, module-relative path) differs before/after migration: " + strings.Join(diffs, "; "),
+					Input: describe.String(), Replay: replay})
 			}
-			run.Case(line, nd.L(nd.L(mods...), nd.L(owners...)).String(), true)
+			run.Case(line, nd.L(bs...).String()+" "+nd.L(v2mods...).String()+" "+nd.L(as...).String()+" "+agreeS, true)
 		}()
 	}
 }
